@@ -36,7 +36,8 @@ def diff_case(left, right, form):
 
     def inp(lines, form):
         if form == 'array':
-            return list(lines), {'kind': 'array', 'v': [A.cps(x) for x in lines]}
+            # every line is its own string OBJECT (equal lines are equal by value, not by identity)
+            return [x.encode('utf-8').decode('utf-8') if x else ''.join([]) for x in lines], {'kind': 'array', 'v': [A.cps(x) for x in lines]}
         if form == 'parts':
             parts = ['\n'.join(lines[:len(lines) // 2]), '\r\n'.join(lines[len(lines) // 2:])] if lines else []
             return parts, {'kind': 'array', 'v': [A.cps(x) for x in parts]}
@@ -107,9 +108,14 @@ def run(ctx, replay=None):
     lists = [list(t) for k in range(0, n + 1) for t in itertools.product('abc', repeat=k)]
     jobs = []
     forms = ['array', 'lf', 'crlf', 'parts', 'array/lf', 'crlf/array', 'lf/parts', 'lf/crlf']
+    words = {'a': 'alpha', 'b': 'be ta', 'c': ''}
     for i, l in enumerate(lists):
         for j, rr in enumerate(lists):
-            jobs.append((l, rr, forms[(i + j) % len(forms)] if (l and rr) else 'array'))
+            if (i + 2 * j) % 3 == 0:
+                l2, r2 = [words[x] for x in l], [words[x] for x in rr]       # multi-character lines and the empty line
+            else:
+                l2, r2 = l, rr
+            jobs.append((l2, r2, forms[(i + j) % len(forms)] if (l and rr) else 'array'))
     nexh = len(jobs)
     for _ in range(ctx.pick(1500, 20000)):
         k = rnd.randint(0, 40)
@@ -128,5 +134,5 @@ def run(ctx, replay=None):
              'right': [A.uncps(x) for x in c['right']['v']] if c['right']['kind'] == 'array' else A.uncps(c['right']['v'])},
             nontrivial=lambda c: True)
     ctx.notes.update({'exhaustive_pairs': nexh, 'shipped_scripts': sum(1 for c in cases if c['kind'] == 'shipped')})
-    return F.finish(ctx, rule='all %d pairs of line lists of length <= %d over {a,b,c} as arrays / LF text / CRLF text / mixed parts, random '
+    return F.finish(ctx, rule='all %d pairs of line lists of length <= %d over {a,b,c} (a third of them spelt with multi-character lines and the empty line) as arrays / LF text / CRLF text / mixed parts, random '
                     'pairs up to 40 lines derived by edits, all shipped include scripts' % (nexh, n), exhaustive=True)
